@@ -330,13 +330,16 @@ func (w *World) execNetOp(ctx context.Context, toks []string) (bool, error) {
 		// cache, reopen the database and Load(amount)
 		p := atoi(toks[1])
 		amount := -1
-		if len(toks) > 2 && !strings.HasPrefix(toks[2], "ctx=") {
+		if len(toks) > 2 && !strings.HasPrefix(toks[2], "ctx=") && toks[2] != "noload" {
 			amount = atoi(toks[2])
 		}
 		// ctx=cancelled : the Load of the current database runs under a context that has already ended
 		w.loadCancelled = toks[len(toks)-1] == "ctx=cancelled"
+		// noload : the current database is opened and NOT loaded (a producer that only appends)
+		w.noLoad = toks[len(toks)-1] == "noload"
 		err := w.restart(ctx, p, amount)
 		w.loadCancelled = false
+		w.noLoad = false
 		return true, err
 	default:
 		return false, nil
@@ -406,6 +409,9 @@ func (w *World) restart(ctx context.Context, p int, amount int) error {
 		n := -1
 		if t.k == w.curDB {
 			n = amount
+		}
+		if w.noLoad && t.k == w.curDB {
+			continue
 		}
 		lerr := func() (e error) {
 			defer func() {
